@@ -63,7 +63,7 @@ def configs(tier, seed):
     return out
 
 
-def symbolic_optimize(cfg, rec, K=2, after=None, raise_exception=False, verbose=False, max_paths=400):
+def symbolic_optimize(cfg, rec, K=2, after=None, raise_exception=False, verbose=False, max_paths=400, well_conditioned=False):
     """Real Optimizer.optimize + create_result on terms, with adversarial optimiser and SVD contract stubs."""
     from harness import pipeline as pl
     from glotaran.optimization.optimizer import Optimizer
@@ -79,7 +79,7 @@ def symbolic_optimize(cfg, rec, K=2, after=None, raise_exception=False, verbose=
                 s.calls.clear()
                 s.cache.clear()
             ls = optim.AdversarialLeastSquares(ctx, K=K)
-            svd = optim.SvdStub(ctx)
+            svd = optim.SvdStub(ctx, well_conditioned=well_conditioned)
             with Patcher() as p2:
                 optim.install_optimizer_stubs(p2, ctx, src, ls, svd)
                 if not state.get("rec"):
@@ -107,10 +107,13 @@ def assume_parameter_domains(ctx, cfg, scheme):
             continue
         if p.non_negative:
             ctx.assume(p.value.e > 0)
-        if p.minimum != -optim.INF:
-            ctx.assume(p.value.e >= z3.RealVal(str(p.minimum)))
-        if p.maximum != optim.INF:
-            ctx.assume(p.value.e <= z3.RealVal(str(p.maximum)))
+        for b, ge in ((p.minimum, True), (p.maximum, False)):
+            if isinstance(b, SymReal):
+                ctx.assume((p.value >= b) if ge else (p.value <= b))
+                if p.non_negative:
+                    ctx.assume(b.e > 0)
+            elif abs(float(b)) != optim.INF:
+                ctx.assume((p.value.e >= zreal(float(b))) if ge else (p.value.e <= zreal(float(b))))
 
 
 def run_config(cfg, rec):
